@@ -16,6 +16,8 @@ def run(ctx):
     scen = "sync,async,async-restart,byz,equivocate,boundary"
     stats += bftcommon.record_and_validate(ctx, scen, 30 if q else 600, 36, "c03-mixed")
     stats += bftcommon.record_and_validate(ctx, "byz,equivocate", 6 if q else 200, 60, "c03-long", seed_offset=7)
+    # 3. model -> implementation: TLC-sampled schedules of BFT.tla executed on the real nodes
+    stats += bftcommon.replay_schedules(ctx, 25 if q else 600)
     fin, fork, both = bftcommon.nontrivial(stats)
     ctx.cov["evaluations"] = len(stats)
     ctx.cov["distinct_nontrivial"] = both
